@@ -386,13 +386,83 @@ class ClassSpec:
             self._cls = obj
         return self._cls
 
+    def aux_fields(self):
+        """Instance attributes the live class assigns (`self.x = ...` in any of its methods) that the contract's
+        state does not declare -- bookkeeping a maintainer added, a counter, a flag.  They are not part of the
+        abstraction the clauses speak about, but the code may read them, so an arbitrary object of the class has
+        them: {name: (type, bounded)}.  The type comes from what the class assigns to the attribute: only boolean
+        literals -> any bool (bounded: every value is one the class itself stores); only integer literals and
+        `+= / -=` -> any int; `set()` -> a set; anything else -> an opaque value.  A refutation on a path that read
+        an unbounded auxiliary attribute is never reported as a violation (no invariant is known for it): undecided."""
+        if getattr(self, "_aux", None) is None:
+            import ast as _ast
+
+            aux = {}
+            try:
+                node, _m, _h = source.find_function(self.qualname)
+            except KeyError:
+                node = None
+            assigns = {}
+            if node is not None:
+                for item in node.body:
+                    if not isinstance(item, (_ast.FunctionDef, _ast.AsyncFunctionDef)) or not item.args.args:
+                        continue
+                    me = item.args.args[0].arg
+                    for n in _ast.walk(item):
+                        tgts, val, aug = [], None, False
+                        if isinstance(n, _ast.Assign):
+                            tgts, val = n.targets, n.value
+                        elif isinstance(n, _ast.AnnAssign) and n.value is not None:
+                            tgts, val = [n.target], n.value
+                        elif isinstance(n, _ast.AugAssign):
+                            tgts, val, aug = [n.target], n.value, True
+                        for tg in tgts:
+                            if isinstance(tg, (_ast.Tuple, _ast.List)):
+                                for el in tg.elts:
+                                    if isinstance(el, _ast.Attribute) and isinstance(el.value, _ast.Name) and el.value.id == me:
+                                        assigns.setdefault(el.attr, []).append(("expr", None))
+                            elif isinstance(tg, _ast.Attribute) and isinstance(tg.value, _ast.Name) and tg.value.id == me:
+                                if isinstance(val, _ast.Constant):
+                                    assigns.setdefault(tg.attr, []).append(("aug" if aug else "const", val.value))
+                                elif isinstance(val, _ast.Call) and isinstance(val.func, _ast.Name) and val.func.id == "set" and not val.args:
+                                    assigns.setdefault(tg.attr, []).append(("set", None))
+                                else:
+                                    assigns.setdefault(tg.attr, []).append(("expr", None))
+            for name, how in assigns.items():
+                if name in self.fields:
+                    continue
+                kinds = {k for k, _v in how}
+                vals = [v for k, v in how if k in ("const", "aug")]
+                if kinds <= {"const"} and all(isinstance(v, bool) for v in vals):
+                    aux[name] = (T.bool, True)
+                elif kinds <= {"const", "aug"} and all(isinstance(v, int) and not isinstance(v, bool) for v in vals):
+                    aux[name] = (T.int, False)
+                elif kinds <= {"const"} and all(v is None or isinstance(v, bool) for v in vals):
+                    aux[name] = (T.opt(T.bool), True)
+                elif kinds == {"set"}:
+                    aux[name] = (T.set_(), False)
+                else:
+                    aux[name] = (T.opaque, False)
+            self._aux = aux
+        return self._aux
+
     def fresh(self, I, name, assume_inv=True, overrides=None):
         fields = {}
         for k, t in self.fields.items():
             if overrides and k in overrides:
                 t = overrides[k]
             fields[k] = t.fresh(I, f"{name}.{k}")
+        for k, (t, bounded) in self.aux_fields().items():
+            if overrides and k in overrides:
+                fields[k] = overrides[k].fresh(I, f"{name}.{k}")
+                continue
+            try:
+                fields[k] = t.fresh(I, f"{name}.{k}")
+            except Exception:
+                fields[k] = T.opaque.fresh(I, f"{name}.{k}")
         obj = SObj(self.cls, fields, tag=name)
+        if self.aux_fields():
+            I.ctx.aux_fields_of[obj.oid] = {k: b for k, (_t, b) in self.aux_fields().items()}
         if assume_inv:
             self.assume_invariants(I, obj)
         return obj
